@@ -142,7 +142,9 @@ def run(rep: Report, ctx: Any) -> str:
         if fr.kind != "expr":
             continue
         # "<name>": <python_name>   inside field_dict.update({...})  and  field_dict["<name>"] = <python_name>
-        if fr.text == "property.name":
+        # (the property loop variable is canonical: `ITER[*]`)
+        if fr.loops and fr.text == f"{fr.loops[-1]}[*].name":
+            pv = f"{fr.loops[-1]}[*]"
             n_w += 1
             names = tplq.guard_atoms(fr)
             uncond_possible = False
@@ -150,12 +152,12 @@ def run(rep: Report, ctx: Any) -> str:
             prev = _prev_data(td.body, fr.node)
             py_guarded = prev is not None and "is not UNSET" in prev
             if not py_guarded:
-                ok = tplq.implies(fr, "property.required", True)
+                ok = tplq.implies(fr, f"{pv}.required", True)
                 rep.check(ok, "R10.3", f"model.py.jinja::_to_dict::unconditional-write#{n_w}",
                           "a key is written without an `is not UNSET` test under a condition that does not imply property.required",
                           where=f"{PKG}/templates/model.py.jinja:{fr.line}", lhs=[g for g, _ in fr.guards], rhs="implies property.required")
             else:
-                ok = tplq.implies(fr, "property.required", False)
+                ok = tplq.implies(fr, f"{pv}.required", False)
                 rep.check(ok, "R10.3", f"model.py.jinja::_to_dict::guarded-write#{n_w}",
                           "the UNSET-guarded write is not restricted to non-required properties (a required key could be omitted)",
                           where=f"{PKG}/templates/model.py.jinja:{fr.line}", lhs=[g for g, _ in fr.guards], rhs="implies not property.required")
@@ -164,7 +166,7 @@ def run(rep: Report, ctx: Any) -> str:
     # from_dict pops
     n_p = 0
     for n in mt.tree.find_all(nodes.Assign):
-        if isinstance(n.target, nodes.Name) and n.target.name == "property_source":
+        if expr_text(n.node).startswith(("'d.pop(", "(('d.pop(", "('d.pop(")):
             n_p += 1
             txt = expr_text(n.node)
             fr = next((f for f in tplq.frags(mt.tree.body) if False), None)
@@ -173,8 +175,9 @@ def run(rep: Report, ctx: Any) -> str:
             pol = _assign_guard(mt.tree.body, n)
             rep.require(pol is not None, "guard of property_source")
             test, arm = pol
-            want_default = not ((test == "property.required") == arm)
-            rep.check(has_default == want_default and "property.name" in txt, "R10.3", f"model.py.jinja::from_dict::pop[{'optional' if want_default else 'required'}]",
+            rep.require(test.endswith("[*].required"), "the requiredness test guarding the pop forms")
+            want_default = not arm
+            rep.check(has_default == want_default and test[:-len(".required")] + ".name" in txt, "R10.3", f"model.py.jinja::from_dict::pop[{'optional' if want_default else 'required'}]",
                       "pop form does not match requiredness (optional keys need the UNSET default, required keys none)",
                       where=f"{PKG}/templates/model.py.jinja:{n.lineno}", lhs=txt, rhs="d.pop(name, UNSET) iff not required")
     rep.floor("from_dict_pop_forms", n_p, 2)
@@ -246,16 +249,20 @@ def run(rep: Report, ctx: Any) -> str:
               where=f"{PKG}/templates/{em.name}:{filt[0].line}", lhs=filt[0].guards, rhs="same guard as `params = {}`")
     ck = em.macros.get("cookie_params")
     rep.require(ck, "cookie_params macro")
+    n_ck = 0
     for fr in tplq.frags(ck.body):
-        if fr.kind == "expr" and fr.text == "parameter.name":
+        if fr.kind == "expr" and fr.loops and fr.text == f"{fr.loops[-1]}[*].name":
+            n_ck += 1
+            req = f"{fr.loops[-1]}[*].required"
             prev = _prev_data(ck.body, fr.node) or ""
             if "is not UNSET" in prev:
-                rep.check(tplq.implies(fr, "parameter.required", False), "R10.5", "cookie_params::guarded", "guard misplaced",
+                rep.check(tplq.implies(fr, req, False), "R10.5", "cookie_params::guarded", "guard misplaced",
                           where=f"{PKG}/templates/{em.name}:{fr.line}")
             else:
-                rep.check(tplq.implies(fr, "parameter.required", True), "R10.5", "cookie_params::unguarded",
+                rep.check(tplq.implies(fr, req, True), "R10.5", "cookie_params::unguarded",
                           "an optional cookie is sent without an UNSET test", where=f"{PKG}/templates/{em.name}:{fr.line}",
                           lhs=fr.guards, rhs="implies parameter.required")
+    rep.floor("cookie_writes", n_ck, 2)
     # path parameters must be required
     vl = proto.methods.get("validate_location")
     rep.require(vl, "validate_location")
